@@ -295,6 +295,9 @@ func genC10(r *Rand, tier string) *Case {
 	if !ok {
 		c, _ = c10Case(L, 'Q', int64(eff)+1, 0, false, cuts)
 	}
+	if c.Variant == "" && eff >= 64 && eff <= 1<<16 && r.Chance(1, 3) {
+		c10Fill(r, c, eff)
+	}
 	if c.Variant == "" && body > int64(eff) && body < 1<<20 && r.Chance(1, 4) {
 		// the oversized message arrives in two flights: its header and a part of
 		// its body, then - once the server waits for more - the rest. Nothing is
@@ -347,6 +350,86 @@ func genC10(r *Rand, tier string) *Case {
 	return c
 }
 
+// c10Fill puts legal traffic in front of the sized message so that the read
+// window is in different states when the sized message arrives: one large legal
+// message (a parsed Query or a stray CopyData nobody consumes) of 4096, 4097,
+// 5000, L-1 or L bytes, or a run of small legal queries whose bodies (with the
+// startup packet's) add up to a total around 4096 / 8192 bytes.
+func c10Fill(r *Rand, c *Case, eff int) {
+	cc := &c.Conns[0]
+	if len(cc.Steps) < 2 {
+		return
+	}
+	var fill []pgwire.FMsg
+	var big []int
+	for _, n := range []int{4096, 4097, 5000, eff - 1, eff} {
+		if n <= eff && n >= 64 {
+			big = append(big, n)
+		}
+	}
+	if len(big) > 0 && r.Bool() {
+		n := big[r.Intn(len(big))]
+		if r.Bool() {
+			m, _ := sizedMsg(c, 'Q', int64(n), eff, "k")
+			fill = append(fill, m)
+		} else {
+			fill = append(fill, pgwire.FMsg{K: "d", Data: make([]byte, n)})
+		}
+		if r.Chance(1, 3) {
+			m, _ := sizedMsg(c, 'Q', int64(r.PickInt(2, 100)), eff, "k")
+			fill = append([]pgwire.FMsg{m}, fill...)
+		}
+	} else {
+		var sum int64
+		for _, st := range cc.Steps {
+			for i := range st.Msgs {
+				if b := st.Msgs[i].DeclaredBody(); b <= int64(eff) {
+					sum += b
+				}
+			}
+		}
+		target := int64(r.PickInt(4096, 4096, 4095, 4097, 8192))
+		for target <= sum {
+			target += 4096
+		}
+		left := target - sum
+		per := int64(r.PickInt(eff, eff/2, 256, 100))
+		if per > int64(eff) || per < 2 {
+			per = int64(eff)
+		}
+		for left > 0 && len(fill) < 400 {
+			n := per
+			if left < n {
+				n = left
+			}
+			if left-n == 1 {
+				n-- // (a Query needs a body of at least one byte)
+			}
+			if n < 1 {
+				break
+			}
+			m, ok := sizedMsg(c, 'Q', n, eff, "k")
+			if !ok {
+				break
+			}
+			fill = append(fill, m)
+			left -= n
+		}
+	}
+	if len(fill) == 0 {
+		return
+	}
+	// in front of the flight that carries the sized message (pipelined with it
+	// or as a flight of its own)
+	if r.Bool() {
+		cc.Steps[1].Msgs = append(fill, cc.Steps[1].Msgs...)
+	} else {
+		steps := append([]Step{}, cc.Steps[:1]...)
+		steps = append(steps, Step{Msgs: fill})
+		cc.Steps = append(steps, cc.Steps[1:]...)
+	}
+}
+
 // c10Copy: an oversized CopyData / CopyFail / foreign messages inside COPY mode.
 func c10Copy(r *Rand, L, eff int) *Case {
 	c := &Case{Variant: "copy", Server: ServerCfg{Limit: L}, Programs: map[string]*Program{probeKey: probeProgram()}}
@@ -354,6 +437,14 @@ func c10Copy(r *Rand, L, eff int) *Case {
 	msgs := []pgwire.FMsg{{K: "Q", S1: "cp"}}
 	if r.Bool() {
 		msgs = append(msgs, pgwire.FMsg{K: "d", Data: []byte("ok-chunk")})
+	}
+	if eff >= 4096 && r.Bool() {
+		// a large legal chunk right in front of the oversized message
+		n := r.PickInt(4096, 4097, 5000, eff-1, eff)
+		if n > eff {
+			n = eff
+		}
+		msgs = append(msgs, pgwire.FMsg{K: "d", Data: make([]byte, n)})
 	}
 	// the oversized message inside COPY mode: CopyData, CopyFail or a foreign message
 	ot := byte(r.Pick("d", "d", "f", "Q", "P", "S")[0])
@@ -498,7 +589,7 @@ func checkC10(x *Exec, c *Case) ([]Violation, bool) {
 func init() {
 	register(&Prop{
 		ID: "C10", Level: "exploration", QuickS: 25, ThoroughS: 420,
-		Rule:       "enumerated boundary grid (limits {5,16,64,100,1000,4095,4096,4097,65536} x message types {Q,P,B,D,E,C,H,S,X,d,c,f,unknown} x declared body {L-1,L,L+1} x position {first, after a simple cycle, inside a pipelined extended batch, while discarding after a failed extended message}; startup packets and password messages of body {L-1,L,L+1,2L}; declared lengths 0-3 for five message types and the startup packet) plus seeded cases (the same dimensions with bodies 2L, 2L+1, 64 MiB, 2^31-5, 2^32-5, fully supplied by a synthetic pattern that spells valid protocol messages or cut short, default limit for a small share, arbitrary segmentation of the skipped body, oversized CopyData / CopyFail / foreign messages inside COPY mode); judged by the size-rule model (the ReadyForQuery after the 54000 error is optional here), 'no callback sees a byte of a skipped body', a per-step allocation bound of 4L+16MiB measured from runtime/metrics, and recovery of the following message; oversized messages delivered in two flights (header and part of the body first: nothing is answered before the message has been skipped in full); one read of the exchange reports a transient timeout (no byte lost): compared with the undisturbed run - identical if the server carries on, a prefix if it gives the connection up; non-trivial = the case contains a message at or beyond the boundary; distinct = distinct case content hashes",
+		Rule:       "enumerated boundary grid (limits {5,16,64,100,1000,4095,4096,4097,65536} x message types {Q,P,B,D,E,C,H,S,X,d,c,f,unknown} x declared body {L-1,L,L+1} x position {first, after a simple cycle, inside a pipelined extended batch, while discarding after a failed extended message}; startup packets and password messages of body {L-1,L,L+1,2L}; declared lengths 0-3 for five message types and the startup packet) plus seeded cases (the same dimensions with bodies 2L, 2L+1, 64 MiB, 2^31-5, 2^32-5, fully supplied by a synthetic pattern that spells valid protocol messages or cut short, default limit for a small share, arbitrary segmentation of the skipped body, oversized CopyData / CopyFail / foreign messages inside COPY mode); judged by the size-rule model (the ReadyForQuery after the 54000 error is optional here), 'no callback sees a byte of a skipped body', a per-step allocation bound of 4L+16MiB measured from runtime/metrics, and recovery of the following message; oversized messages delivered in two flights (header and part of the body first: nothing is answered before the message has been skipped in full); one read of the exchange reports a transient timeout (no byte lost): compared with the undisturbed run - identical if the server carries on, a prefix if it gives the connection up; a third of the seeded cases put legal traffic in front of the sized message that leaves the read window in another state (one legal message of 4096 / 4097 / 5000 / L-1 / L bytes, parsed or - a stray CopyData, a large chunk inside COPY - never consumed; runs of small queries whose bodies add up to totals around 4096 and 8192); non-trivial = the case contains a message at or beyond the boundary; distinct = distinct case content hashes",
 		Exhaustive: "the boundary grid listed in the rule is enumerated completely in both tiers",
 		Components: e1Components, Assumptions: commonAssumptions,
 		Fixed: c10Fixed,
